@@ -48,9 +48,39 @@ func (s c04Spec) newState() eng.SeqState {
 	w := model.NewWorld(model.Config{Cols: []model.ColDef{{Name: "n", Kind: s.kind}, {Name: "s", Kind: "string"}, {Name: "b", Kind: "bool"}, {Name: "e", Kind: "enum"}}})
 	k := model.Kinds[s.kind]
 	// index A on n (as integer > 1), index B on s
-	w.C.CreateIndex("A", "n", func(r column.Reader) bool { return readerInt(k, r) > 1 })
-	w.M.Indexes = append(w.M.Indexes, &model.IndexDef{Name: "A", Col: "n", Pred: func(v model.Val) bool { return k.AsInt(v) > 1 }})
-	w.CreateIndex("s=a")
+	indexes := func() {
+		w.C.CreateIndex("A", "n", func(r column.Reader) bool { return readerInt(k, r) > 1 })
+		w.M.Indexes = append(w.M.Indexes, &model.IndexDef{Name: "A", Col: "n", Pred: func(v model.Val) bool { return k.AsInt(v) > 1 }})
+		w.CreateIndex("s=a")
+	}
+	if strings.HasPrefix(s.preset, "aligned-3") {
+		// the same in-block position in three blocks, with different memberships: row 5
+		// is in every named set, row 16384+5 only holds a string other than "a", row
+		// 32768+5 only a number failing the index rule. "-late": the indexes are created
+		// after the rows (back-filled; their bitmaps end where their last member is)
+		big := k.Values[0]
+		small := k.Values[0]
+		for _, v := range k.Values {
+			if k.AsInt(v) > 1 {
+				big = v
+			} else {
+				small = v
+			}
+		}
+		if s.preset == "aligned-3" {
+			indexes()
+		}
+		w.SeedReplay(map[uint32][]model.Write{
+			5:         {{Col: "n", V: big}, {Col: "s", V: model.Val{S: "a"}}, {Col: "b", V: model.Val{N: 1}}, {Col: "e", V: model.Val{S: "x"}}},
+			16384 + 5: {{Col: "s", V: model.Val{S: "b"}}},
+			32768 + 5: {{Col: "n", V: small}},
+		})
+		if s.preset != "aligned-3" {
+			indexes()
+		}
+		return &worldState{w: w, ops: s.ops, check: s.check}
+	}
+	indexes()
 	applyPreset(w, s.preset, []model.Write{{Col: "n", V: k.Values[0]}, {Col: "s", V: model.Val{S: "a"}}, {Col: "e", V: model.Val{S: "x"}}})
 	return &worldState{w: w, ops: s.ops, check: s.check}
 }
@@ -484,7 +514,7 @@ func init() {
 		Prop:  "C04",
 		Level: "model_checking",
 		Rule: "layouts = every history up to depth d1 over {insert full / partial / without the filtered column / empty, overwrite, delete first / last row (offset reuse)} on presets " +
-			"{empty, word-edge, block-edge, sparse-3}; at every layout EVERY filter chain up to length L over 37 filter steps (With/Without/Union x {index A, index B, value column, " +
+			"{empty, word-edge, block-edge, sparse-3, aligned-3 (one in-block position in three blocks with different memberships; indexes created before / after the rows)}; at every layout EVERY filter chain up to length L over 37 filter steps (With/Without/Union x {index A, index B, value column, " +
 			"bool column, string column, missing name}, WithUnion pairs and singles, WithValue/WithInt/WithUint/WithFloat/WithString incl. wrong-type and missing columns) is run on a real " +
 			"transaction and compared with set algebra on the model: selection, Count, Range order/cursor/readers, Sum/Avg/Min/Max over the selected rows holding a value; per numeric kind",
 		Assumptions: []string{
@@ -494,7 +524,7 @@ func init() {
 		Budget: budget(170*time.Second, 28*time.Minute),
 		Bounds: func(tier string) map[string]any {
 			if tier == "quick" {
-				return map[string]any{"d1": "3 (empty), 2 (sparse-3, word-edge), 1 (block-edge)", "L": "2 (all kinds), 3 (int, d1=2), 1 (block-edge)", "filter_steps": 37}
+				return map[string]any{"d1": "3 (empty), 2 (sparse-3, aligned-3, word-edge), 1 (block-edge)", "L": "2 (all kinds), 3 (int, d1=2), 1 (block-edge)", "filter_steps": 37}
 			}
 			return map[string]any{"d1": 3, "L": "3 (int on empty/sparse-3), 2 (other kinds), 1 (block-edge)", "filter_steps": 37}
 		},
@@ -503,15 +533,18 @@ func init() {
 			for _, kd := range numeric {
 				if tier == "quick" {
 					specs = append(specs, c04Spec{kd, "empty", 3, 2}, c04Spec{kd, "sparse-3", 2, 2})
+					if kd == "int" || kd == "uint16" || kd == "float64" {
+						specs = append(specs, c04Spec{kd, "aligned-3-late", 2, 2})
+					}
 					if kd == "int" {
-						specs = append(specs, c04Spec{kd, "empty", 2, 3}, c04Spec{kd, "word-edge", 2, 2}, c04Spec{kd, "block-edge", 1, 1})
+						specs = append(specs, c04Spec{kd, "empty", 2, 3}, c04Spec{kd, "aligned-3", 2, 2}, c04Spec{kd, "word-edge", 2, 2}, c04Spec{kd, "block-edge", 1, 1})
 					}
 				} else {
 					L := 2
 					if kd == "int" {
 						L = 3
 					}
-					specs = append(specs, c04Spec{kd, "empty", 3, L}, c04Spec{kd, "sparse-3", 3, 2}, c04Spec{kd, "word-edge", 2, 2}, c04Spec{kd, "block-edge", 2, 1})
+					specs = append(specs, c04Spec{kd, "empty", 3, L}, c04Spec{kd, "sparse-3", 3, 2}, c04Spec{kd, "aligned-3", 2, 2}, c04Spec{kd, "aligned-3-late", 2, L}, c04Spec{kd, "word-edge", 2, 2}, c04Spec{kd, "block-edge", 2, 1})
 				}
 			}
 			for _, s := range specs {
